@@ -238,8 +238,9 @@ func deserializeCompiledModule(wazeroVersion string, reader io.ReadCloser) (cm *
 		return
 	}
 
+	var executable []byte
 	if executableLen > 0 {
-		executable, err := platform.MmapCodeSegment(int(executableLen))
+		executable, err = platform.MmapCodeSegment(int(executableLen))
 		if err != nil {
 			err = fmt.Errorf("compilationcache: error mmapping executable (len=%d): %v", executableLen, err)
 			return nil, false, err
@@ -250,14 +251,17 @@ func deserializeCompiledModule(wazeroVersion string, reader io.ReadCloser) (cm *
 			err = fmt.Errorf("compilationcache: error reading executable (len=%d): %v", executableLen, err)
 			return nil, false, err
 		}
+	}
 
-		expected := crc32.Checksum(executable, crc)
-		if _, err = io.ReadFull(reader, eightBytes[:4]); err != nil {
-			return nil, false, fmt.Errorf("compilationcache: could not read checksum: %v", err)
-		} else if checksum := binary.LittleEndian.Uint32(eightBytes[:4]); expected != checksum {
-			return nil, false, fmt.Errorf("compilationcache: checksum mismatch (expected %d, got %d)", expected, checksum)
-		}
+	// The checksum is always written, also for an empty executable: an entry which ends before it is truncated.
+	expected := crc32.Checksum(executable, crc)
+	if _, err = io.ReadFull(reader, eightBytes[:4]); err != nil {
+		return nil, false, fmt.Errorf("compilationcache: could not read checksum: %v", err)
+	} else if checksum := binary.LittleEndian.Uint32(eightBytes[:4]); expected != checksum {
+		return nil, false, fmt.Errorf("compilationcache: checksum mismatch (expected %d, got %d)", expected, checksum)
+	}
 
+	if executableLen > 0 {
 		if runtime.GOARCH == "arm64" {
 			// On arm64, we cannot give all of rwx at the same time, so we change it to exec.
 			if err = platform.MprotectRX(executable); err != nil {
